@@ -208,9 +208,11 @@ class ClassInfo(object):
 # ---------------------------------------------------------------------------
 
 class Program(object):
-    def __init__(self, root, package="stix2", exclude=("test",), extra_files=None):
+    def __init__(self, root, package="stix2", exclude=("test",), extra_files=None, overlay=None):
         self.root = os.path.abspath(root)
         self.package = package
+        self.overlay = dict(overlay or {})     # relpath -> replacement source text (in-memory variant of the tree)
+        self.cache = {}                        # per-program analysis caches (type model, call graph, effects ...)
         self.modules = {}
         self.functions = {}     # id -> FunctionInfo
         self.classes = {}       # id -> ClassInfo
@@ -243,8 +245,11 @@ class Program(object):
                 relpath = os.path.relpath(path, self.root)
                 modparts = parts + ([] if fn == "__init__.py" else [fn[:-3]])
                 name = ".".join(modparts)
-                with open(path, "r", encoding="utf-8") as f:
-                    src = f.read()
+                if relpath in self.overlay:
+                    src = self.overlay[relpath]
+                else:
+                    with open(path, "r", encoding="utf-8") as f:
+                        src = f.read()
                 try:
                     tree = ast.parse(src, filename=path)
                 except SyntaxError as e:
@@ -789,8 +794,10 @@ def body_walk(func_node):
 _PROGRAMS = {}
 
 
-def load_program(root="/repo"):
+def load_program(root="/repo", overlay=None):
     root = os.path.abspath(root)
+    if overlay:
+        return Program(root, overlay=overlay)
     if root not in _PROGRAMS:
         _PROGRAMS[root] = Program(root)
     return _PROGRAMS[root]
